@@ -21,6 +21,7 @@ from .world import real_time
 
 VERIF = os.path.dirname(os.path.dirname(os.path.abspath(__file__)))
 REPO = os.environ.get("GSIM_REPO", "/repo")
+OUT = os.environ.get("GSIM_OUT", VERIF)  # evidence/ and replays/ go here (scratch dir for the mutant self-test)
 FORMAT = 1
 
 
@@ -335,7 +336,7 @@ def run_check(engine_cls, tier, base_seed, jobs=None, runs=None, budget_s=None, 
             known_seen[kf["id"]] = known_seen.get(kf["id"], 0) + 1
             continue
         seen_classes.setdefault(v["class"], []).append(r)
-    os.makedirs(os.path.join(VERIF, "replays", engine.PROPERTY), exist_ok=True)
+    os.makedirs(os.path.join(OUT, "replays", engine.PROPERTY), exist_ok=True)
     n_rep = 0
     for vclass, rs in sorted(seen_classes.items()):
         r = rs[0]
@@ -362,7 +363,7 @@ def run_check(engine_cls, tier, base_seed, jobs=None, runs=None, budget_s=None, 
             "case": small, "violation": viol, "event_digest": res.digest,
             "n_runs_with_this_class": len(rs),
         }
-        path = os.path.join(VERIF, "replays", engine.PROPERTY, "%d-%d.json" % (r["seed"], n_rep))
+        path = os.path.join(OUT, "replays", engine.PROPERTY, "%d-%d.json" % (r["seed"], n_rep))
         with open(path, "w") as f:
             json.dump(rec, f, indent=1, sort_keys=True)
         ok, out = _fresh_replay(path)
@@ -413,8 +414,8 @@ def run_check(engine_cls, tier, base_seed, jobs=None, runs=None, budget_s=None, 
         "wall_s": round(wall, 2),
         "violations": len(reported),
     }
-    os.makedirs(os.path.join(VERIF, "evidence"), exist_ok=True)
-    with open(os.path.join(VERIF, "evidence", engine.PROPERTY + ".json"), "w") as f:
+    os.makedirs(os.path.join(OUT, "evidence"), exist_ok=True)
+    with open(os.path.join(OUT, "evidence", engine.PROPERTY + ".json"), "w") as f:
         json.dump(evidence, f, indent=1, sort_keys=True)
 
     if not quiet:
